@@ -29,6 +29,22 @@
 
 namespace {
 
+// Parse a non-negative number of seconds. The whole text must be a number that
+// fits an int; anything else is a configuration error (nullopt), never an
+// exception.
+std::optional<int> parseSeconds(const std::string& str) {
+  try {
+    size_t end_pos = 0;
+    int v = std::stoi(str, &end_pos);
+    if (end_pos != str.length() || v < 0) {
+      return std::nullopt;
+    }
+    return v;
+  } catch (const std::exception&) {
+    return std::nullopt;
+  }
+}
+
 template <typename T, typename PluginT>
 std::unique_ptr<PluginT> compilePluginGeneric(
     Oomd::PluginRegistry<PluginT>& registry,
@@ -144,20 +160,22 @@ std::unique_ptr<Oomd::Engine::Ruleset> compileRuleset(
 
   // post_action_delay field is optional
   if (ruleset.post_action_delay.size()) {
-    post_action_delay = std::stoi(ruleset.post_action_delay);
-    if (post_action_delay < 0) {
-      OLOG << "Ruleset post_action_delay must be non-negative";
+    auto parsed = parseSeconds(ruleset.post_action_delay);
+    if (!parsed) {
+      OLOG << "Ruleset post_action_delay must be a non-negative integer";
       return nullptr;
     }
+    post_action_delay = *parsed;
   }
 
   // prekill_hook_timeout field is optional
   if (ruleset.prekill_hook_timeout.size()) {
-    prekill_hook_timeout = std::stoi(ruleset.prekill_hook_timeout);
-    if (prekill_hook_timeout < 0) {
-      OLOG << "Ruleset prekill_hook_timeout must be non-negative";
+    auto parsed = parseSeconds(ruleset.prekill_hook_timeout);
+    if (!parsed) {
+      OLOG << "Ruleset prekill_hook_timeout must be a non-negative integer";
       return nullptr;
     }
+    prekill_hook_timeout = *parsed;
   }
 
   for (const auto& dg : ruleset.dgs) {
